@@ -60,11 +60,53 @@ func errNilGuard(conds []core.Cond, call ssa.Value) bool {
 		if !ok || !isNil {
 			continue
 		}
-		if x == call {
+		if isResultOf(x, call) {
 			return true
 		}
-		if ex, ok := x.(*ssa.Extract); ok && ex.Tuple == call {
-			return true
+	}
+	return false
+}
+
+// isResultOf: x is call's value, a component of its tuple, or the load of a local cell (a named result kept in memory
+// because the function defers, a captured variable) into which that value was stored just before, in the same block
+// with no other store to the cell in between (`if err = f(); err != nil`).
+func isResultOf(x, call ssa.Value) bool {
+	if x == call {
+		return true
+	}
+	if ex, ok := x.(*ssa.Extract); ok && ex.Tuple == call {
+		return true
+	}
+	ld, ok := x.(*ssa.UnOp)
+	if !ok || ld.Op != token.MUL {
+		return false
+	}
+	cell, ok := ld.X.(*ssa.Alloc)
+	if !ok {
+		return false
+	}
+	instrs := ld.Block().Instrs
+	at := -1
+	for i, in := range instrs {
+		if in == ssa.Instruction(ld) {
+			at = i
+		}
+	}
+	for i := at - 1; i >= 0; i-- {
+		if st, isSt := instrs[i].(*ssa.Store); isSt && st.Addr == ssa.Value(cell) {
+			if st.Val == call {
+				return true
+			}
+			if ex, isEx := st.Val.(*ssa.Extract); isEx && ex.Tuple == call {
+				return true
+			}
+			return false
+		}
+		if _, isCall := instrs[i].(ssa.CallInstruction); isCall && instrs[i] != call.(ssa.Instruction) {
+			// a call in between may write the cell if it escaped (closures); be conservative only for closures
+			if _, isMC := instrs[i].(*ssa.Call); isMC {
+				continue
+			}
 		}
 	}
 	return false
@@ -78,10 +120,7 @@ func errNonNilGuard(conds []core.Cond, call ssa.Value) bool {
 		if !ok || isNil {
 			continue
 		}
-		if x == call {
-			return true
-		}
-		if ex, ok := x.(*ssa.Extract); ok && ex.Tuple == call {
+		if isResultOf(x, call) {
 			return true
 		}
 	}
